@@ -153,6 +153,7 @@ EvNode(nd, st, d, C) ==
            THEN LET s2 == EvKids(nd, st, d + 1, C)
                 IN [s2 EXCEPT !.unr = st.unr \o s2.unr]
            ELSE st
+      [] nd.k = "void" -> [st EXCEPT !.unr = Append(@, nd)]
       [] nd.k = "config" -> [st EXCEPT !.lim = ApplyConfig(@, nd.loc), !.unr = Append(@, nd)]
       [] nd.k = "loop" -> EvLoop(nd, st, d, C, 0, nd.start)
       [] nd.k = "specs" ->
